@@ -6,6 +6,7 @@ import (
 	"go/constant"
 	"go/token"
 	"go/types"
+	"os"
 	"sort"
 	"strings"
 
@@ -208,6 +209,121 @@ func runC07(r *Run, p *Prog) {
 		}
 		if n == 0 {
 			r.Ob("G7", shortName(drivers[0]), "the generator writes its output file", drivers[0].Pos(), false, "no file write found")
+		}
+		// the file must be one the go tool treats as an ordinary source file of the package: its name is the package
+		// name, which contains no '_' other than the final one appended to a keyword - otherwise some interface names
+		// give *_test.go (ignored by go build) or *_<GOOS>.go / *_<GOARCH>.go (excluded by an implicit build constraint)
+		var pkgSplice *genSplice
+		for _, sp := range w.Splices {
+			if sp.Mode == lmCode && strings.HasSuffix(sp.Prev, "package ") {
+				pkgSplice = sp
+				break
+			}
+		}
+		if pkgSplice == nil {
+			r.Unresolved("G7", "splice of the package name after `package `")
+			return
+		}
+		// ... and the value returned as the name is that very variable
+		sameVar := false
+		fd := w.funcs[root]
+		spliced := map[types.Object]bool{} // the variables used in the expression written after `package `
+		ast.Inspect(fd, func(nd ast.Node) bool {
+			if e, ok := nd.(ast.Expr); ok && e.Pos() == pkgSplice.Pos {
+				ast.Inspect(e, func(x ast.Node) bool {
+					if id, ok := x.(*ast.Ident); ok {
+						if o := w.info.Uses[id]; o != nil {
+							spliced[o] = true
+						}
+					}
+					return true
+				})
+				return false
+			}
+			return true
+		})
+		ast.Inspect(fd, func(nd ast.Node) bool {
+			if _, isLit := nd.(*ast.FuncLit); isLit {
+				return false
+			}
+			if rs, ok := nd.(*ast.ReturnStmt); ok && len(rs.Results) > 0 {
+				if id, ok := rs.Results[0].(*ast.Ident); ok && spliced[w.info.Uses[id]] {
+					sameVar = true
+				}
+			}
+			return true
+		})
+		if os.Getenv("VLDEBUG") == "g7" {
+			fmt.Fprintf(os.Stderr, "G7 pkg splice at %v what=%s spliced=%d sameVar=%v repl=%q\n", p.Fset.Position(pkgSplice.Pos), pkgSplice.Dyn.what, len(spliced), sameVar, pkgSplice.Dyn.repl)
+		}
+		d := pkgSplice.Dyn
+		under := d.first != nil && d.first['_'] || d.rest != nil && d.rest['_']
+		for _, rp := range d.repl {
+			if strings.Contains(rp, "_") {
+				under = true
+			}
+		}
+		if sameVar {
+			r.Ob("G7", root, "the output file name (the package name) contains no '_' besides the keyword suffix", pkgSplice.Pos, !under,
+				"the name "+d.what+" can contain '_' inside: for an interface name whose last word is `test`, a GOOS or a GOARCH the file is *_test.go or *_<GOOS/GOARCH>.go, which go build ignores or excludes - the emitted file does not build as a package")
+		}
+	})
+	// ---- G8: the code reports, up to trailing newlines, the description text it was generated from
+	r.Guard("G8", func() {
+		ro := DiscoverRoles(p)
+		T := ro.T
+		rootFn := p.Func(pkgGen, root)
+		if rootFn == nil || m.entry == nil {
+			r.Unresolved("G8", "template function / parser entry")
+			return
+		}
+		v := p.Inlined(rootFn, func(c *ssa.Function) bool { return fnPkgPath(c) != pkgGen })
+		n := 0
+		for _, cs := range callsIn(v, false) {
+			if staticTarget(cs.Common) != origFn(m.entry) || len(cs.Common.Args) != 1 {
+				continue
+			}
+			n++
+			at := strip(T.T(cs.Common.Args[0]))
+			ok := false
+			for _, par := range v.Params {
+				pt := "param:" + par.Name()
+				if at == pt || at == `call:strings.TrimRight(`+pt+`,const:"\n")` || at == `call:strings.TrimSuffix(`+pt+`,const:"\n")` {
+					ok = true
+				}
+			}
+			r.Ob("G8", shortName(v), "the parser is handed the input text with at most trailing newlines removed", cs.Instr.Pos(), ok,
+				"the text parsed (and reported by the generated VarlinkGetDescription) is "+at+": it differs from the input by more than trailing newlines")
+		}
+		if n == 0 {
+			r.Unresolved("G8", "call of the parser entry in the template function")
+		}
+		// ... and what is emitted as the description is the tree's Description member, re-encoded for the raw string only
+		nd := 0
+		for _, sp := range w.Splices {
+			if !strings.Contains(sp.Dyn.what, "IDL.Description") {
+				continue
+			}
+			nd++
+			what := sp.Dyn.what
+			for strings.HasPrefix(what, "Replace(") && strings.HasSuffix(what, ")") {
+				inner := what[len("Replace(") : len(what)-1]
+				i := strings.Index(inner, `,"`)
+				if j := strings.LastIndex(inner, `,"`); j > 0 {
+					if k := strings.LastIndex(inner[:j], `,"`); k > 0 {
+						i = k
+					}
+				}
+				if i < 0 {
+					break
+				}
+				what = inner[:i]
+			}
+			r.Ob("G8", sp.Fn, "the reported description is the tree's Description (re-encoded for the raw string only)", sp.Pos, what == "IDL.Description",
+				"the description is emitted as "+sp.Dyn.what+": a transformation other than the raw-string re-encoding changes the reported text")
+		}
+		if nd == 0 {
+			r.Unresolved("G8", "splice of IDL.Description in the generated VarlinkGetDescription")
 		}
 	})
 	// ---- G1
